@@ -138,7 +138,28 @@ func randomMutation(p *prog, root *model.Node) {
 		return
 	}
 	keys := n.SortedKeys()
-	switch op := r.Intn(6); {
+	switch op := r.Intn(7); {
+	case op == 6:
+		// Unset of keys that are not there (a no-op), alone, twice, next to a present one; absent keys that would sort
+		// before, between and behind the present ones
+		absent := []string{"", "\x00", "A", "absent", "m", "zzzz", "~", string(rune(0x10ffff))}
+		var ks []string
+		for k := r.Range(1, 3); k > 0; k-- {
+			a := absent[r.Intn(len(absent))]
+			if _, there := n.M[a]; !there {
+				ks = append(ks, a)
+			}
+		}
+		if len(keys) > 0 && r.Chance(1, 3) {
+			k := keys[r.Intn(len(keys))]
+			ks = append(ks, k, k) // a present key, twice in one call: the second time it is absent
+		}
+		p.step("Unset", fmt.Sprintf("%s.Unset(%q) [absent keys]", n.Name(), ks), false, func() {
+			for _, k := range ks {
+				delete(n.M, k)
+			}
+			n.Object().Unset(ks...)
+		})
 	case op == 0 && len(keys) > 0:
 		k := keys[r.Intn(len(keys))]
 		p.step("Unset", fmt.Sprintf("%s.Unset(%q)", n.Name(), k), false, func() {
